@@ -105,6 +105,50 @@ def _boundary_enable(ctx, m, ref, V):
         want = sorted(i for i, t in enumerate(ftri) if t in ref.border_faces and v in t)
         ctx.check(g is not None and sorted(int(x) for x in g) == want, "boundary", "bc.vertex_to_faces", "wrong_answer",
                   "boundary_connectivity.vertex_to_faces(v) are not the border faces at v (volume ids)", v=v, got=g, want=want)
+        ok, g = ctx.call("bc.vertex_to_edges", bc.vertex_to_edges, v, monitor="boundary")
+        try:
+            ge = sorted(edges[int(x)] for x in g)
+        except Exception:
+            ge = None
+        ctx.check(ge == sorted(edge(v, w) for w in nb[v]), "boundary", "bc.vertex_to_edges", "wrong_answer",
+                  "boundary_connectivity.vertex_to_edges(v) are not the border edges at v (volume ids)", v=v, got=g)
+    eid = {e: i for i, e in enumerate(edges)}
+    fid = {t: i for i, t in enumerate(ftri)}
+    by_edge = {}
+    for t in ref.border_faces:
+        for k in range(3):
+            by_edge.setdefault(edge(t[k], t[(k + 1) % 3]), []).append(t)
+    for t in list(sorted(ref.border_faces))[:40]:
+        F = fid.get(t)
+        if F is None:
+            continue
+        ok, g = ctx.call("bc.face_to_edges", bc.face_to_edges, F, monitor="boundary")
+        want = sorted(eid[edge(t[k], t[(k + 1) % 3])] for k in range(3))
+        ctx.check(g is not None and sorted(int(x) for x in g) == want, "boundary", "bc.face_to_edges", "wrong_answer",
+                  "boundary_connectivity.face_to_edges(F) are not the three sides of the border face (volume ids)", F=F, got=g, want=want)
+        ok, g = ctx.call("bc.face_to_faces", bc.face_to_faces, F, monitor="boundary")
+        want = sorted(fid[t2] for k in range(3) for t2 in by_edge[edge(t[k], t[(k + 1) % 3])] if t2 != t)
+        ctx.check(g is not None and sorted(int(x) for x in g) == want, "boundary", "bc.face_to_faces", "wrong_answer",
+                  "boundary_connectivity.face_to_faces(F) are not the border faces across the sides of F (volume ids)", F=F, got=g, want=want)
+        for v in t:
+            ok, k = ctx.call("bc.in_face_index", bc.in_face_index, F, v, monitor="boundary")
+            try:
+                good = b2m_v[int(bF[m2b_f[F]][int(k)])] == v
+            except Exception:
+                good = False
+            ctx.check(good, "boundary", "bc.in_face_index", "wrong_answer",
+                      "boundary_connectivity.in_face_index(F, v) is not the position of v in the boundary face of F", F=F, v=v, got=k)
+    interior_f = [i for i, t in enumerate(ftri) if t not in ref.border_faces][:5]
+    for F in interior_f:
+        ok, g = ctx.call("bc.face_to_edges", bc.face_to_edges, F, monitor="boundary")
+        ok2, g2 = ctx.call("bc.face_to_faces", bc.face_to_faces, F, monitor="boundary")
+        ctx.check(not g and not g2, "boundary", "bc.interior_face", "interior_face_has_boundary_neighbourhood",
+                  "boundary_connectivity answers a non-empty neighbourhood for an interior face", F=F, got=[g, g2])
+    for v in sorted(set(range(len(V))) - ref.border_vertices)[:5]:
+        ok, g = ctx.call("bc.vertex_to_vertices", bc.vertex_to_vertices, v, monitor="boundary")
+        ok2, g2 = ctx.call("bc.vertex_to_edges", bc.vertex_to_edges, v, monitor="boundary")
+        ctx.check(not g and not g2, "boundary", "bc.interior_vertex", "interior_vertex_has_boundary_neighbourhood",
+                  "boundary_connectivity answers a non-empty neighbourhood for an interior vertex", v=v, got=[g, g2])
 
 
 def _boundary_standalone(ctx, m, ref, V, orient):
@@ -170,6 +214,29 @@ def run_case(desc, ctx):
                     _boundary_enable(ctx, m, ref, V)
                 else:
                     _boundary_standalone(ctx, m, ref, V, desc["orient"])
+        # route: the mesh is written to a file and read back (geogram files carry the cell adjacency computed at save time; medit/tet files do not);
+        # the reloaded object must answer like the reference built from ITS OWN cell list
+        if desc["seed"] % 3 == 0:
+            import mouette as M
+            import tempfile, os as _os
+            ext = [".geogram_ascii", ".mesh", ".tet"][(desc["seed"] // 3) % 3]
+            ctx.cls("route:reloaded_from" + ext)
+            with tempfile.TemporaryDirectory(prefix="mv_c03_") as td:
+                path = _os.path.join(td, "vol" + ext)
+                ok, m1 = ctx.call("construct", build.volume, V, C, "list", desc["irows"])
+                ok, _ = ctx.call("save", M.mesh.save, m1, path, monitor="order")
+                ok, m2 = ctx.call("load", M.mesh.load, path, monitor="order")
+            C2 = build.cells_list(m2)
+            V2 = build.vertices_array(m2)
+            if ctx.check(sorted(sorted(c) for c in C2) == sorted(sorted(c) for c in C) and len(V2) == len(V), "order", "reload", "reloaded_mesh_has_other_cells",
+                         "the volume written to %s and read back does not have the same cells" % ext):
+                ref2 = RefVolume(len(V2), C2)
+                P2 = volconn.probes(ref2, random.Random(desc["seed"] ^ 0x51f))
+                S2 = volconn.script(P2, ref2)
+                order2 = list(range(len(S2)))
+                random.Random(desc["seed"] ^ 0x77).shuffle(order2)
+                T2 = _run_volume_script(ctx, m2, S2, order2)
+                volconn.verify(ctx, T2, ref2, build.faces_list(m2), build.edges_list(m2), P2, sorted_on)
     if len(C) <= 3:
         ctx.sample({"vertices": len(V), "cells": C, "class": z["cls"], "compared": "%d accessors x %d orders + boundary maps" % (nacc, desc["orders"] + 1)})
 
